@@ -289,6 +289,8 @@ def enumerate_cases(atoms, nonneg=True, extra_consts=(), variant_domain=None, co
     const_pos = {("int", c): float(j) for j, c in enumerate(cs)}
     seen = set()
     order_types = []
+    if k and len(cand) ** k > 4000000:
+        raise Undecided("too many order types (%d points)" % k)
     for combo in itertools.product(cand, repeat=k):
         # canonical signature: dense ranking
         allv = sorted(set(combo) | set(const_pos.values()))
